@@ -183,21 +183,26 @@ def distinct {α} [BEq α] : List α → List α
   | [] => []
   | x :: xs => let r := distinct xs; if r.contains x then r else x :: r
 
+/-- `size · superlatt⁻¹` as an integer matrix (`np.round(np.linalg.inv(superlatt) * size)`). -/
+def invsuperOf (S : M3) : M3 :=
+  let d := det3 S
+  (adj3 S).map (·.map fun x => if d < 0 then -x else x)
+
+/-- The scan of `maketrans`: `invsuper·n mod size` for `n ∈ [-maxN, maxN]³`, first occurrences in scan order. -/
+def scanTrans (S : M3) : List V3 :=
+  let size := (det3 S).natAbs
+  let invsuper := invsuperOf S
+  let maxN : Int := (S.flatten.map fun x => (x.natAbs : Int)).foldl max 0
+  let rng : List Int := (List.range (2 * maxN.toNat + 1)).map fun (k : Nat) => (k : Int) - maxN
+  let cand : List V3 := rng.flatMap fun n0 => rng.flatMap fun n1 => rng.map fun n2 =>
+    (mulVec invsuper [n0, n1, n2]).map (· % (size : Int))
+  (distinct cand.reverse).reverse
+
 /-- `Supercell.maketrans`. -/
 def maketrans (S : M3) : Except GErr Trans :=
-  let d := det3 S
-  let size := d.natAbs
-  if size = 0 then .error .zeroDivision
-  else
-    let invsuper : M3 := (adj3 S).map (·.map fun x => if d < 0 then -x else x)
-    let maxN : Int := (S.flatten.map fun x => (x.natAbs : Int)).foldl max 0
-    let rng : List Int := (List.range (2 * maxN.toNat + 1)).map fun (k : Nat) => (k : Int) - maxN
-    let cand : List V3 := rng.flatMap fun n0 => rng.flatMap fun n1 => rng.map fun n2 =>
-      (mulVec invsuper [n0, n1, n2]).map (· % (size : Int))
-    -- first occurrences in scan order
-    let translist := (distinct cand.reverse).reverse
-    if translist.length ≠ size then .error .arithmetic
-    else .ok { size := size, invsuper := invsuper, translist := translist }
+  if (det3 S).natAbs = 0 then .error .zeroDivision
+  else if (scanTrans S).length ≠ (det3 S).natAbs then .error .arithmetic
+  else .ok { size := (det3 S).natAbs, invsuper := invsuperOf S, translist := scanTrans S }
 
 /-- A crystal operation as `gengroup` uses it. -/
 structure CrysOp where
@@ -224,6 +229,17 @@ def tsuperOf (T : Trans) (tq : List Rat) : List Rat :=
     let x : Rat := ratDot row tq
     (x - (T.size : Rat) * (((x / (T.size : Rat)).floor : Int) : Rat)) / (T.size : Rat)
 
+/-- `[f(x) for x in l]` where `f` may raise: the first exception wins. -/
+def mapE {α β ε} (f : α → Except ε β) : List α → Except ε (List β)
+  | [] => .ok []
+  | x :: xs =>
+    match f x with
+    | .error e => .error e
+    | .ok y =>
+      match mapE f xs with
+      | .error e => .error e
+      | .ok ys => .ok (y :: ys)
+
 /-- Image index of site (cell `R`, atom with image `a'` and shift `d`) under `g0 + u`. -/
 def siteImage (N : Nat) (T : Trans) (rot : M3) (u : V3) (R : V3) (ad : Nat × V3) : Except GErr Nat :=
   let Rp := vadd (vadd (mulVec rot R) ad.2) u
@@ -232,8 +248,8 @@ def siteImage (N : Nat) (T : Trans) (rot : M3) (u : V3) (R : V3) (ad : Nat × V3
 
 /-- The index map of `g0 + u`, with the source's permutation test. -/
 def indexmapOf (N : Nat) (T : Trans) (unittrans : List V3) (g0 : CrysOp) (u : V3) : Except GErr (List Nat) :=
-  match (unittrans.flatMap fun R => g0.atoms.map fun ad => (R, ad)).mapM
-      (fun (p : V3 × (Nat × V3)) => siteImage N T g0.rot u p.1 p.2) with
+  match mapE (fun (p : V3 × (Nat × V3)) => siteImage N T g0.rot u p.1 p.2)
+      (unittrans.flatMap fun R => g0.atoms.map fun ad => (R, ad)) with
   | .error err => .error err
   | .ok indexmap =>
     if (distinct indexmap).length ≠ N * T.size then .error .arithmetic else .ok indexmap
@@ -250,12 +266,12 @@ def gengroupOp (S : M3) (N : Nat) (T : Trans) (g0 : CrysOp) : Except GErr (Optio
   if ¬ R0.all (·.all fun x => x % size == 0) then .ok none
   else
     let Rsuper := R0.map (·.map (· / size))
-    match unittrans.mapM (fun u =>
+    match mapE (fun u =>
         match indexmapOf N T unittrans g0 u with
         | .error err => (Except.error err : Except GErr SuperOp)
         | .ok im =>
           let tq : List Rat := List.zipWith (fun (t : Rat) (ui : Int) => t + (ui : Rat)) g0.trans u
-          .ok { rot := Rsuper, trans := tsuperOf T tq, indexmap := im }) with
+          .ok { rot := Rsuper, trans := tsuperOf T tq, indexmap := im }) unittrans with
     | .error err => .error err
     | .ok l => .ok (some l)
 
